@@ -5,11 +5,14 @@ import FsicModel.Basic
 
 * the regex substitution `index_re = r'\[\s*(.+?)?\s*\]'` as a direct functional reading (leftmost match,
   greedy `\s*`, optional lazy group that is preferred over the empty alternative, `.` = anything but '\n');
-* `resolve_indexes`: split on ':', more than three parts → ValueError, one part → `'[' + str(index) + ']'`,
-  otherwise `f'[{start}:{stop}:{step}]'` with the `stop += 1` rule applied **whenever `stop` is a Python int** —
-  also for a purely positional stop, and *not* for a NumPy integer (bounds of a pandas partial-string slice);
-* `resolve_index_in_span`: no backtick → `int(label.strip())` (ValueError unless an integer literal); backtick →
-  strip, strip backticks, look the text up as a string label, then as an `int` label, else KeyError;
+* `resolve_indexes`: a match whose group is absent or has no backtick is returned verbatim (`match.group(0)`);
+  otherwise split on ':', more than three parts → ValueError, one part → `'[' + str(index) + ']'`, else
+  `f'[{start}:{stop}:{step}]'` where `start` / `stop` are resolved only if they contain a backtick (a backtick-free
+  component keeps its stripped text) and `stop += 1` applies only to a resolved stop that is a Python int (not to
+  text, not to a NumPy integer such as the bound of a pandas partial-string slice);
+* `resolve_index_in_span`: no backtick → `int(label.strip())` (no longer reachable from `resolve_indexes`, kept as
+  in the code); backtick → strip, strip backticks, look the text up as a string label, then as an `int` label,
+  else KeyError;
 * the span is a parameter (`Span`): membership and location.  Instances for list-like spans (first occurrence,
   Python int), NumPy-array spans (fallback locator: unique match, `int(positions[0])`) and a table (pandas: `in`
   and `get_loc` are inputs);
@@ -151,7 +154,7 @@ def matchBracket (after : List Char) : Option (Option (List Char) × Nat) :=
 /-! ### `resolve_index_in_span` / `resolve_indexes` -/
 
 inductive Err where
-  | keyError | valueError | attributeError | unmodelled
+  | keyError | valueError | unmodelled
   deriving DecidableEq, Repr
 
 /-- The label object a backticked text denotes: the string if the span has it, else the integer it spells. -/
@@ -186,34 +189,40 @@ def resolveIndexInSpan (sp : Span) (label : List Char) : Except Err Ix :=
     | some i => .ok (.int i true)
     | none => .error .valueError
 
-/-- A slice bound in the rewritten text: empty, or an integer. -/
+/-- A slice bound in the rewritten text: the component's own (stripped, possibly empty) text when it has no
+    backtick, or the integer a backticked component resolves to. -/
 inductive Bound where
-  | empty
+  | text (t : List Char)
   | val (i : Int)
   deriving DecidableEq, Repr
 
 /-- What one bracket group is rewritten to. -/
 inductive Resolved where
+  | verbatim                                         -- `return match.group(0)`
   | index (i : Int)                                  -- `[i]`
   | sliceObj (start stop : Int)                      -- `[slice(a, b, None)]` (pandas partial-string match)
   | slice (start stop : Bound) (step : List Char)    -- `[start:stop:step]`, `step` copied verbatim
   deriving DecidableEq, Repr
 
-/-- `start = resolve_index_in_span(start); if isinstance(start, slice): start = start.start`. -/
+/-- `if len(start) and '`' in start: start = resolve_index_in_span(start); if isinstance(start, slice):
+    start = start.start` — otherwise `start` stays the text it is. -/
 def startBound (sp : Span) (txt : List Char) : Except Err Bound :=
-  if txt.isEmpty then .ok .empty
-  else match resolveIndexInSpan sp txt with
+  if txt.contains '`' then
+    match resolveIndexInSpan sp txt with
     | .ok (.int i _) => .ok (.val i)
     | .ok (.slice a _ _) => .ok (.val a)
     | .error e => .error e
+  else .ok (.text txt)
 
-/-- `stop = …; if isinstance(stop, slice): stop = stop.stop; if isinstance(stop, int): stop += 1`. -/
+/-- `if len(stop) and '`' in stop: stop = …; if isinstance(stop, slice): stop = stop.stop` and then
+    `if isinstance(stop, int): stop += 1` (text is not an int). -/
 def stopBound (sp : Span) (txt : List Char) : Except Err Bound :=
-  if txt.isEmpty then .ok .empty
-  else match resolveIndexInSpan sp txt with
+  if txt.contains '`' then
+    match resolveIndexInSpan sp txt with
     | .ok (.int i py) => .ok (.val (if py then i + 1 else i))
     | .ok (.slice _ b py) => .ok (.val (if py then b + 1 else b))
     | .error e => .error e
+  else .ok (.text txt)
 
 def mkSlice (a b : Except Err Bound) (step : List Char) : Except Err Resolved :=
   match a with
@@ -235,43 +244,69 @@ def resolveParts (sp : Span) : List (List Char) → Except Err Resolved
   | [start, stop, step] => mkSlice (startBound sp (strip start)) (stopBound sp (strip stop)) (strip step)
   | _ => .error .valueError
 
-/-- `resolve_indexes(match)`: `group(1)` is `None` when the optional group did not take part
-    (`None.split` → AttributeError). -/
+/-- `resolve_indexes(match)`: a match without a group (`group(1) is None`) or whose group has no backtick is left
+    as it is. -/
 def resolveGroupSem (sp : Span) : Option (List Char) → Except Err Resolved
-  | none => .error .attributeError
-  | some g => resolveParts sp (splitOn ':' g)
+  | none => .ok .verbatim
+  | some g => if g.contains '`' then resolveParts sp (splitOn ':' g) else .ok .verbatim
 
 def intText (i : Int) : List Char := (toString i).toList
 
 def boundText : Bound → List Char
-  | .empty => []
+  | .text t => t
   | .val i => intText i
 
-def render : Resolved → List Char
+/-- The replacement text for a match whose own text is `matched`. -/
+def render (matched : List Char) : Resolved → List Char
+  | .verbatim => matched
   | .index i => '[' :: intText i ++ [']']
   | .sliceObj a b => "[slice(".toList ++ intText a ++ ", ".toList ++ intText b ++ ", None)]".toList
   | .slice a b step => '[' :: boundText a ++ ':' :: boundText b ++ ':' :: step ++ [']']
 
-def resolveGroup (sp : Span) (g : Option (List Char)) : Except Err (List Char) :=
-  (resolveGroupSem sp g).map render
+/-- `resolve_indexes` as a function of `(match.group(1), match.group(0))`. -/
+def resolveMatch (sp : Span) (g : Option (List Char)) (matched : List Char) : Except Err (List Char) :=
+  match resolveGroupSem sp g with
+  | .ok r => .ok (render matched r)
+  | .error e => .error e
 
-/-- `index_re.sub(resolve_indexes, expression)`; `skip` = characters of the current match still to drop. -/
-def subAll (f : Option (List Char) → Except Err (List Char)) : List Char → Nat → Except Err (List Char)
-  | [], _ => .ok []
-  | _ :: cs, skip + 1 => subAll f cs skip
+/-- `index_re.finditer(expression)` interleaved with the text between the matches: a literal character, or a
+    match with its `group(1)` and its whole text `group(0)`.  `skip` = characters of the current match still to
+    pass over. -/
+inductive Seg where
+  | lit (c : Char)
+  | grp (g : Option (List Char)) (text : List Char)
+  deriving DecidableEq, Repr
+
+def segments : List Char → Nat → List Seg
+  | [], _ => []
+  | _ :: cs, skip + 1 => segments cs skip
   | c :: cs, 0 =>
     if c == '[' then
       match matchBracket cs with
-      | some (g, len) =>
-        match f g with
-        | .error e => .error e
-        | .ok r => (subAll f cs len).map (r ++ ·)
-      | none => (subAll f cs 0).map (c :: ·)
-    else (subAll f cs 0).map (c :: ·)
+      | some (g, len) => .grp g (c :: cs.take len) :: segments cs len
+      | none => .lit c :: segments cs 0
+    else .lit c :: segments cs 0
+
+def Seg.text : Seg → List Char
+  | .lit c => [c]
+  | .grp _ t => t
+
+/-- The substitution: matches are replaced left to right (the first exception propagates), the rest is copied. -/
+def substitute (f : Option (List Char) → List Char → Except Err (List Char)) : List Seg → Except Err (List Char)
+  | [] => .ok []
+  | .lit c :: ss => (substitute f ss).map (c :: ·)
+  | .grp g t :: ss =>
+    match f g t with
+    | .error e => .error e
+    | .ok r => (substitute f ss).map (r ++ ·)
+
+/-- `index_re.sub(resolve_indexes, expression)`. -/
+def subAll (f : Option (List Char) → List Char → Except Err (List Char)) (expr : List Char) : Except Err (List Char) :=
+  substitute f (segments expr 0)
 
 /-- Step 1 of `eval`: `if '`' in expression: expression = self._resolve_expression_indexes(expression)`. -/
 def resolveExpression (sp : Span) (expr : List Char) : Except Err (List Char) :=
-  if expr.contains '`' then subAll (resolveGroup sp) expr 0 else .ok expr
+  if expr.contains '`' then subAll (resolveMatch sp) expr else .ok expr
 
 /-! ### Label indexing (`obj[name, a:b]`, `_resolve_period_slice`) — what eval is compared with -/
 
